@@ -431,6 +431,18 @@ class World(object):
                           "headers": [[a, b] for a, b in hd], "rest": len(req['rest'])})
                 key = [v for (n, v) in hd if n == 'sec-websocket-key']
                 r['key'] = key[0] if key else ''
+                # data-level facts about the request, established by the harness (base64, token comparison)
+                try:
+                    r['keylen'] = len(base64.b64decode(r['key'], validate=True)) if len(key) == 1 else -1
+                except Exception:
+                    r['keylen'] = -1
+                up = [v for (n, v) in hd if n == 'upgrade']
+                co = [v for (n, v) in hd if n == 'connection']
+                r['upgrade_ok'] = len(up) == 1 and up[0].lower() == 'websocket'
+                r['connection_ok'] = len(co) == 1 and 'upgrade' in [t.strip().lower() for t in co[0].split(',')]
+                r['custom'] = [(h.lower(), v) in hd for h, v in (self.sc.get('headers') or [])]
+                ext = [v for (n, v) in hd if n == 'sec-websocket-extensions']
+                r['offers_deflate'] = any('permessage-deflate' in [p.split(';')[0].strip() for p in v.split(',')] for v in ext)
                 self.requests.append({'key': key[0].encode('latin-1') if key else b'', 'raw': data, 'conn': self.ci})
             self.rec(r)
             return
